@@ -35,8 +35,9 @@ Clauses(r) ==
       \* dialects may behave as under either)
       \cup (IF p1 /\ au # v1 /\ ~(p2 /\ au = v2)
             THEN {<<"C08.auto_v1", IF KF_C08_2(in) THEN "KF_C08_2" ELSE "other">>} ELSE {})
-      \* auto-detection: a pure new-style text behaves as under protocol v2
-      \cup (IF p2 /\ au # v2 /\ ~(p1 /\ au = v1)
+      \* auto-detection: a pure new-style text has its v2 meaning = Eval of TagExpr's own parse of that text
+      \* (a text that is pure in both dialects may behave as under protocol v1)
+      \cup (IF p2 /\ au # V2Run(in, SS) /\ ~(p1 /\ au = v1)
             THEN {<<"C08.auto_v2", IF KF_C08_3(in) THEN "KF_C08_3" ELSE "other">>} ELSE {})
       \* auto-detection: old negation prefix + new-style operator is rejected with a tag-expression error
       \cup (IF IsMixed(in) /\ ~au.tee
